@@ -255,12 +255,33 @@ var fieldNames = []string{"a", "b", "c", "f0", "x1", "name", "id", "v"}
 // reuseType: a column type; top: tuple / UDT allowed (a tuple column expands into one destination per element)
 func (g *gen) reuseType(depth int, top bool) *typeDesc {
 	k := g.r.Intn(100)
+	if k < 4 && !g.odd {
+		k = 10
+	}
 	switch {
+	case k < 4:
+		// (only as a column type or a tuple element, where the type is the type of one Unmarshal call, and not on
+		// MapScan pages: RowData needs a Go type for every column)
+		// a custom option: a class the driver maps to a native type (decoded like it), a class it does not know and
+		// an unknown option id (Unmarshal has no case: every non-null cell is an error; `**T` still takes null)
+		switch g.r.Intn(4) {
+		case 0:
+			return &typeDesc{kind: 'c', cls: []byte(marshalPrefix + []string{"Int32Type", "UTF8Type", "BytesType", "LongType", "BooleanType", "UUIDType"}[g.r.Intn(6)])}
+		case 1:
+			return &typeDesc{kind: 'c', cls: []byte([]string{"Int32Type", "UTF8Type", "BytesType"}[g.r.Intn(3)])}
+		case 2:
+			return &typeDesc{kind: 'c', cls: []byte("com.example.MyType")}
+		}
+		return nat([]int{0x16, 0x1F, 0x100}[g.r.Intn(3)])
 	case k < 64 || depth <= 0:
 		return nat(reuseScalarIDs[g.r.Intn(len(reuseScalarIDs))])
 	case k < 76:
+		defer func(o bool) { g.odd = o }(g.odd)
+		g.odd = false
 		return &typeDesc{kind: []byte("ls")[g.r.Intn(2)], sub: []*typeDesc{g.reuseType(depth-1, false)}}
 	case k < 84:
+		defer func(o bool) { g.odd = o }(g.odd)
+		g.odd = false
 		return &typeDesc{kind: 'm', sub: []*typeDesc{nat(reuseKeyIDs[g.r.Intn(len(reuseKeyIDs))]), g.reuseType(depth-1, false)}}
 	case k < 93 && top:
 		n := 1 + g.r.Intn(3)
@@ -270,6 +291,8 @@ func (g *gen) reuseType(depth int, top bool) *typeDesc {
 		}
 		return t
 	case top:
+		defer func(o bool) { g.odd = o }(g.odd)
+		g.odd = false
 		n := 1 + g.r.Intn(3)
 		t := &typeDesc{kind: 'u', ks: []byte("ks"), nm: []byte("u")}
 		p := g.r.Intn(len(fieldNames))
@@ -288,9 +311,18 @@ var intKinds = []string{"int", "int64", "int32", "int16", "int8", "uint", "uint6
 
 // destFor: a Go destination type for a column / element / field of type t: mostly a documented target (marshal.go
 // 193-224), sometimes a pointer to one (`**T`: null is nil), rarely one Unmarshal refuses. key: must be comparable.
+// asNative: the native type the driver sees for a custom option (0: stays custom — Unmarshal has no case for it)
+func asNative(t *typeDesc) *typeDesc {
+	if t.kind == 'c' {
+		return nat(customType(t.cls))
+	}
+	return t
+}
+
 func (g *gen) destFor(t *typeDesc, key bool) *valgen.GT {
 	r := g.r
 	var d *valgen.GT
+	t = asNative(t)
 	switch t.kind {
 	case 'n':
 		switch t.id {
@@ -486,6 +518,7 @@ func (g *gen) collItem(proto int, t *typeDesc, allowNull bool) []byte {
 // encVal: the encoding of a random value of the type (never null; possibly empty for strings / collections)
 func (g *gen) encVal(proto int, t *typeDesc) []byte {
 	r := g.r
+	t = asNative(t)
 	switch t.kind {
 	case 'n':
 		switch t.id {
@@ -660,7 +693,8 @@ func rowItems(cols []colSpec, row []cell) []optBytes {
 
 // sensitive: an EMPTY non-null cell of a text-family column into an unnamed []byte destination
 func sensitive(s slot, it optBytes) bool {
-	return s.g.Name == "bytes" && s.t.kind == 'n' && isTextID(s.t.id) && !it.null && len(it.b) == 0
+	t := asNative(s.t)
+	return s.g.Name == "bytes" && t.kind == 'n' && isTextID(t.id) && !it.null && len(it.b) == 0
 }
 
 // inplace: a destination whose parts Unmarshal fills in place (`*[n]T`, a struct): model-vs-code
@@ -715,6 +749,7 @@ func (x *runner) reuseOps(v int, mult int) {
 		}
 		ncols := 1 + g.r.Intn(4)
 		g.inplace = g.r.Intn(5) == 0
+		g.odd = api != "mapscan"
 		g.shortTuples = g.r.Intn(12) == 0
 		g.count = map[*typeDesc]int{}
 		var slots []slot
